@@ -26,6 +26,26 @@ def run_and_judge(label, cases, work, ev, drv, docs=None, nsamples=2, tv="tv/TV_
     return rej
 
 
+POOLS = os.path.join(common.SPEC, "gen", "eval_pools.ndjson")
+POOL_LABEL = {"confuse": "texts that coincide under white-space / case normalisation, in both orders in one process",
+              "bool": "boolean formulas of depth <= 2 over ordering comparisons with non-number operands, also as filter predicates",
+              "inflate": "nested projections over per-element temporaries, inner arrays crossing the sizes 8 / 16 / 21 / 64",
+              "alias": "the same document node reached twice (both operands, two calls on one array of 16 / 17 elements)"}
+
+
+def pool_families(fams, work, ev, drv, nsamples=1):
+    """hand-shaped families of spec/gen/eval_pools.ndjson (lib/mk_eval_pools.py), judged like every other evaluation case"""
+    rejects = []
+    for fam in fams:
+        c = work.path("pool.%s.cases" % fam)
+        with open(c, "w") as f:
+            for line in open(POOLS):
+                if '"fam": "%s"' % fam in line:
+                    f.write(line)
+        rejects += run_and_judge(POOL_LABEL[fam], c, work, ev, drv, docs=POOLS + ".docs", nsamples=nsamples)
+    return rejects
+
+
 def run(prop, tier, seed, work, ev):
     t = TIERS[tier]
     drv = build_driver()
@@ -48,6 +68,7 @@ def run(prop, tier, seed, work, ev):
     gen(work, "chains", c, n=t["chains"])
     rejects += run_and_judge("operator chains: primary + every sequence of <= %d postfix operators x 3 nested documents" % t["chains"],
                              c, work, ev, drv, docs=c + ".docs")
+    rejects += pool_families(["confuse", "bool", "inflate", "alias"], work, ev, drv)
     params = work.path("rand.in")
     e = dict(os.environ, GEN_MAXLEN=str(t["maxlen"]))
     subprocess.check_call([drv, "gen", "eval", str(seed), str(t["rand"]), params], env=e)
